@@ -473,7 +473,7 @@ func describeChildVal(v ssa.Value, isEnd func(ssa.Value) bool) string {
 
 func init() {
 	register("C20", &propDef{
-		explain: "Path rules on the SSA of trie.Insert and the enumeration loops: every path of one byte-iteration taken for the last byte of a word marks the reached child as a word (end marker stored, node created valid, or valid set on the existing node); the valid flag of created nodes is a per-byte value that is true exactly when the replaced child was the end marker; every child store is followed by both bound updates; inclusive uint8 loops have the 255 exit; Contains/IsValid/end-marker shape. Decides the set-membership mechanism for all insertion orders; the common-prefix length arithmetic of AllBytes is a value property and is not decided.",
+		explain: "Path rules on the SSA of trie.Insert and the enumeration loops: every path of one byte-iteration taken for the last byte of a word marks the reached child as a word (end marker stored, node created valid, or valid set on the existing node); the valid flag of created nodes is a per-byte value that is true exactly when the replaced child was the end marker; every child store is followed by both bound updates; inclusive uint8 loops have the 255 exit; Contains/IsValid/end-marker shape. Decides the set-membership mechanism for all insertion orders; the common-prefix length arithmetic of AllBytes is a value property and is not decided. Also: the enumeration returns before its child scan only for a node without children (nil, leaf flag, min > max).",
 		assume:  []string{"the trie is only mutated through Insert (checked: children/valid/min/max have no other writers in the module is part of R3/R2 scope: package trie)"},
 		run:     runC20,
 	})
